@@ -232,10 +232,11 @@ def run(ctx):
     try:
         cli = [f for f in facts.fns_matching(r"^watchexec_cli::config::make_config::") if f.kind == "coroutine"]
         # the action handler coroutine: contains the contains_key tests
-        hs = [f for f in cli if sum(1 for _, t in f.calls() if t.callee.is_("std::collections::hash::map::HashMap::contains_key")) >= 2]
+        hs = [f for f in cli if any(t.callee.is_("Handler::get_or_create_job") for _, t in f.calls())]
         h = ctx.anchor_one("R08.5", "CLI action handler coroutine", hs)
         root = thir.root(h)
         found = None
+        pathx.INLINE = pathx.accessors(facts, "watchexec_cli::config::", max_nodes=48)     # a predicate moved into a private helper reads as its body
         for n in thir.find(root, "if"):
             d = pathx.desc(n["c"])
             if "contains_key" in d and "Terminate" in d and "Interrupt" in d and not d.startswith("Not "):
@@ -311,6 +312,8 @@ def run(ctx):
                         fail="the CLI action handler's reasons to quit changed: " + "; ".join(bad8)[:300])
     except Skip:
         pass
+    finally:
+        pathx.INLINE = {}
 
     # ---- R08.7 what the graceful path's termination rests on in the supervisor (rules owned by C06 / C07, evaluated here too)
     try:
